@@ -37,6 +37,11 @@ def gen_case(rng, kind):
         header_rows.append([("H%d" % i)[: (widths[i] if widths else 9)] for i in range(len(model.fields))])
     data_rows = [r for r in table if not (r and isinstance(r[0], str) and (r[0].startswith("junk") or r[0].startswith("#")))]
     if kind == "fixed":
+        # callers may hand over values that are already (partly) padded with blanks: "ab" and "ab  " denote the same cell
+        for row in data_rows:
+            for i, cell in enumerate(row):
+                if i < len(widths) and len(cell) < widths[i] and rng.random() < 0.3:
+                    row[i] = cell + " " * rng.randint(1, widths[i] - len(cell))
         # wrong item counts are possible through the writer API even for fixed data
         if data_rows and rng.random() < 0.3:
             k = rng.randrange(len(data_rows))
@@ -82,7 +87,12 @@ def check_case(ctx, model, rows):
         if n_written < model.header:
             verdict = (RM.ACCEPTED,)  # header rows are written without validation
         else:
-            verdict = RM.validate_row(model, row, state, n_written + 1)
+            # fixed-width cells are compared as they appear in the output (padded to the field width): the writer's
+            # verdict has to be the one the reader will give to the written record
+            as_written = row
+            if model.kind == "fixed" and len(row) == len(model.fields) and all(isinstance(c, str) and len(c) <= w for c, w in zip(row, model.widths())):
+                as_written = [c.ljust(w) for c, w in zip(row, model.widths())]
+            verdict = RM.validate_row(model, as_written, state, n_written + 1)
         if verdict[0] == RM.UNJUDGED:
             unjudged = True
             break
